@@ -531,7 +531,7 @@ func runCheck(o *checkOpts) int {
 }
 
 var standingAssumptions = []string{
-	"Go int/uint64 index arithmetic is treated as mathematical; every length and capacity is assumed <= 2^40 (allocation failure is outside the claims)",
+	"Go integers are mathematical in the model; every length and capacity is assumed <= 2^40 (allocation failure is outside the claims). Signed + - * and negation carry an obligation that the result stays in the range of its type where the no-panic sweep runs (checked under C11, assumed under the other properties); unsigned 64-bit arithmetic (format.go digit code) is NOT checked for wrap-around; floating point is uninterpreted (== is IEEE equality, < > a strict partial order, laws assumed per use)",
 	"frames: every function verified against its contract is also proved (frame.* obligations) to write only fields of its modifies roots, listed leaves, byte arrays owned by them, and memory it allocates; frames of functions with assumed contracts are trusted as declared",
 	"typed memory: byte cells hold 0..255, slice headers read from the heap are well-formed",
 	"determinism and sequential semantics of Go; no goroutines in the verified functions",
